@@ -205,7 +205,7 @@ GROUPS += [
     },
     {
         "id": "C03.recv_gates", "property": ["C03", "C01"], "crate": "core",
-        "harnesses": ["c03_recv_response_"], "jobs": 1, "timeout_s": 1200, "mem_gb": 36,  # peak memory varies run to run (13-24+ GB)
+        "harnesses": ["c03_recv_response_"], "jobs": 2, "timeout_s": 1200, "mem_gb": 24,
         "functions": STRAT_FNS + STATE_FNS, "stubs": [NET_STUB],
         "bounds": "the composed receive step recv_response (validate, from, check_trace_id, in_round as wired by the real "
                   "code): an echo reply naming the sequence just beyond the 512-slot window; an echo reply for an AWAITED probe "
@@ -222,7 +222,7 @@ GROUPS += [
                         "honoured by dispatch (c11_*) and by parse (c02_v*_extract_*)"],
     },
     {
-        "id": "C02.extract.v4", "property": ["C02", "C01"], "crate": "core", "stubbing": True, "cbmc_args": FS1100,
+        "id": "C02.extract.v4", "property": "C02", "thorough_property": ["C01"], "crate": "core", "stubbing": True, "cbmc_args": FS1100,
         "harnesses": ["c02_v4_extract", "c02_v4_recv_tcp_socket", "c02_channel_tcp_attempts_expire"], "jobs": 4, "timeout_s": 900, "mem_gb": 12,
         "functions": ["net::ipv4::Ipv4::{extract_probe_proto_resp,calc_udp_checksum,recv_tcp_socket}", "net::channel::Channel::recv_tcp_sockets (expiry)",
                       "net::ipv4::{extract_echo_request,extract_udp_packet,extract_tcp_packet}"],
@@ -231,7 +231,7 @@ GROUPS += [
                   "outcome (connected / refused / host unreachable / other) with symbolic ports, peer and error addresses",
     },
     {
-        "id": "C02.extract.v6", "property": ["C02", "C01"], "crate": "core", "stubbing": True, "cbmc_args": FS1100,
+        "id": "C02.extract.v6", "property": "C02", "thorough_property": ["C01"], "crate": "core", "stubbing": True, "cbmc_args": FS1100,
         "harnesses": ["c02_v6_extract"], "jobs": 3, "timeout_s": 900, "mem_gb": 12,
         "functions": ["net::ipv6::Ipv6::extract_probe_proto_resp", "net::ipv6::{extract_echo_request,extract_udp_packet,"
                       "extract_tcp_packet,udp_payload_has_magic_prefix}"],
@@ -255,7 +255,7 @@ GROUPS += [
     },
     # ------------------------------------------------------------------ C11 / C13 / C19 dispatch
     {
-        "id": "C11.dispatch.v4", "property": ["C11", "C19", "C09", "C02"], "crate": "core", "stubbing": True, "cbmc_args": FS1100,
+        "id": "C11.dispatch.v4", "property": ["C11", "C19", "C09"], "thorough_property": ["C02"], "crate": "core", "stubbing": True, "cbmc_args": FS1100,
         "harnesses": ["c11_v4_", "c09_v4_", "c19_v4_"], "jobs": 5, "timeout_s": 1500, "mem_gb": 12,
         "functions": ["net::ipv4::Ipv4::{dispatch_icmp_probe,dispatch_udp_probe,dispatch_udp_probe_raw,dispatch_tcp_probe,"
                       "make_echo_request_icmp_packet,make_udp_packet,make_ipv4_packet,calc_udp_checksum,recv_icmp_probe}",
@@ -266,7 +266,7 @@ GROUPS += [
                   "(socket options); network byte order",
     },
     {
-        "id": "C11.dispatch.v6", "property": ["C11", "C02"], "crate": "core", "stubbing": True, "cbmc_args": FS1100,
+        "id": "C11.dispatch.v6", "property": "C11", "thorough_property": ["C02"], "crate": "core", "stubbing": True, "cbmc_args": FS1100,
         "harnesses": ["c11_v6_dispatch_icmp", "c11_v6_dispatch_udp_min", "c11_v6_dispatch_udp_57", "c11_v6_size_guards",
                       "c11_v6_dispatch_tcp", "c11_v6_dispatch_udp_unprivileged"], "jobs": 5, "timeout_s": 1500, "mem_gb": 12,
         "functions": ["net::ipv6::Ipv6::{dispatch_icmp_probe,dispatch_udp_probe,dispatch_udp_probe_raw,dispatch_tcp_probe,"
@@ -285,7 +285,7 @@ GROUPS += [
                   "initial sequence symbolic",
     },
     {
-        "id": "C13.paris", "property": ["C13", "C11", "C02"], "crate": "core", "stubbing": True, "cbmc_args": FS1100,
+        "id": "C13.paris", "property": ["C13", "C11"], "thorough_property": ["C02"], "crate": "core", "stubbing": True, "cbmc_args": FS1100,
         "harnesses": ["c13_v4_dispatch_udp_paris", "c13_v6_dispatch_udp_paris"], "jobs": 2, "timeout_s": 1500, "mem_gb": 12,
         "functions": ["Ipv4/Ipv6::dispatch_udp_probe_raw (Paris swap)", "checksum::{udp_ipv4_checksum,udp_ipv6_checksum}"],
         "stubs": [SOCK_STUB],
